@@ -28,12 +28,12 @@ def parse_perrs(s):
 # ---------------------------------------------------------------- C14
 C14_THMS = ['Theo.C14_nullable_correct', 'Theo.C14_deriv_correct', 'Theo.C14_matchesB_correct', 'Theo.C14_longest_match',
             'Theo.C14_longest_none', 'Theo.C14_total', 'Theo.C14_partition', 'Theo.C14_each_maxmunch',
-            'Theo.C14_tokens_are_lexemes', 'Theo.C14_lines', 'Theo.C14_keywords', 'Theo.C14_keywords_documented', 'Theo.C14_catch_all',
+            'Theo.C14_tokens_are_lexemes', 'Theo.C14_lines', 'Theo.C14_keywords', 'Theo.C14_keywords_documented', 'Theo.C14_identifier_words', 'Theo.C14_identifier_only', 'Theo.C14_word_one_token', 'Theo.C14_catch_all',
             'Theo.C14_one_eof', 'Theo.C14_token_files']
 
 
 def check_C14(ctx):
-    build_all(ctx, ['Theo.Props.C14', 'Theo.Props.C15'], C14_THMS)
+    build_all(ctx, ['Theo.Props.C14', 'Theo.Props.C14Ident', 'Theo.Props.C15'], C14_THMS)
     if ctx.harness is None:
         return finish(ctx)
     # (a) the committed scanner is what flex generates from lexer.l
@@ -558,13 +558,14 @@ def check_C11(ctx):
 
 # ---------------------------------------------------------------- C02
 C02_THMS = ['Theo.C02_verdict', 'Theo.C02_parse_fuel_ok', 'Theo.C02_scan_terminates', 'Theo.C02_lexer_progress',
-            'Theo.C02_macro_budget', 'Theo.C02_errors_forwarded']
+            'Theo.C02_macro_budget', 'Theo.C02_errors_forwarded', 'Theo.C02_errors_located', 'Theo.C02_parse_errors_located',
+            'Theo.C02_gen_located']
 
 
 def located_ok(files, main, e_file, e_line):
     """an error location names a supplied file (or the hidden standard file, or '-') with a line inside it"""
-    if e_file == b'-':
-        return e_line == -1
+    if e_file == b'-' and e_line == -1:
+        return True
     if e_file == b'__standards__' and b'__standards__' not in files:
         return 1 <= e_line <= 3
     if e_file not in files:
@@ -588,7 +589,7 @@ def source_dictionary():
 
 
 def check_C02(ctx):
-    build_all(ctx, ['Theo.Props.C02'], C02_THMS)
+    build_all(ctx, ['Theo.Props.C02', 'Theo.Props.C02Located'], C02_THMS)
     if ctx.harness is None:
         return finish(ctx)
     r = ctx.rnd
@@ -607,6 +608,7 @@ def check_C02(ctx):
         (b'm', {b'm': b'include "m"'}), (b'__standards__', {}), (b'm', {b'm': b'x := 1', b'__standards__': b'DEFINE'}),
         (b'm', {b'm': b'', b'__standards__': b'x := RUN f WITH END'}), (b'm', {b'm': b'', b'__standards__': b'GOTO m'}),
         (b'm', {b'm': b'include "__standards__"', b'__standards__': b'x := 99999999999; LOOP x DO y := RUN g WITH 1 END END'}),
+        (b'-', {b'-': b';'}), (b'm', {b'm': b'\n\ninclude "-"', b'-': b'x := \n\n;'}), (b'-', {b'm': b'x := 1'}),
     ]
     for m, f in corpus:
         cases.append((m, f, {'text': {k.decode('latin1'): v.decode('latin1') for k, v in f.items()}, 'corpus': True}))
@@ -748,6 +750,22 @@ def check_C04(ctx, thms=None):
             text = ' '.join(ts)
             cases.append((b'm', {b'm': text.encode('latin1')}, {'text': {'m': text}}))
             verdicts.append((v, why))
+    # every literal position (assignment, +/- operand, IF constant, RUN argument) with the boundary literals
+    BND = ['2147483646', '2147483647', '2147483648', '4294967296', '9223372036854775808', '99999999999999999999']
+    for _ in range(ctx.n(40, 400)):
+        g = sources.Gen(r)
+        defs, main = g.program()
+        base = sources.toks(defs, main)
+        pos = [i for i, t in enumerate(base) if t.isdigit()]
+        for i in (pos if len(pos) <= 12 else r.sample(pos, 12)):
+            for lit in BND:
+                ts = base[:i] + [lit] + base[i + 1:]
+                v, why, info = strict.verdict(ts)
+                if info.dup:
+                    continue
+                text = ' '.join(ts)
+                cases.append((b'm', {b'm': text.encode('latin1')}, {'text': {'m': text}}))
+                verdicts.append((v, why))
     a, b = front.corr_gen(ctx, cases, keys=['ok', 'errs'])
     front.corr_parse(ctx, cases[:ctx.n(800, 5000)])
     # the Lean specification itself (grammar via the parser: C04_parse_iff; static rules: Spec/Static.lean) on the same inputs
